@@ -768,7 +768,7 @@ impl FromStr for Color {
 
 impl Color {
     pub fn to_string(&self) -> String {
-        format!("#{:0x}{:0x}{:0x}", self.r, self.g, self.b)
+        format!("#{:02x}{:02x}{:02x}", self.r, self.g, self.b)
     }
 }
 
